@@ -43,7 +43,15 @@ def strategy(draw):
     azs = sorted(draw(st.lists(st.one_of(gen.floats(0, 179.999), st.sampled_from([0.0, 30.0, 45.0, 90.0, 135.0])),
                                min_size=1, max_size=6, unique=True)))
     p1, p2 = sorted([draw(st.one_of(gen.floats(0, 100), st.sampled_from([0.0, 50.0, 100.0]))) for _ in range(2)])
-    return dict(rec=rec, a=draw(ANGLES), b=draw(ANGLES), theta=draw(ANGLES), d_pol=draw(ANGLES),
+    a = draw(ANGLES)
+    b = draw(ANGLES)
+    near = draw(st.sampled_from(["no", "no", "a-near-deployed", "b-near-a"]))
+    delta = draw(st.sampled_from([1e-3, -2e-3, 3e-3, 1e-4, -5e-5]))
+    if near == "a-near-deployed":
+        a = rec["degrees_from_north"] % 360.0 + delta       # a small correction of the deployed orientation
+    elif near == "b-near-a":
+        b = a + delta
+    return dict(rec=rec, a=a, b=b, theta=draw(ANGLES), d_pol=draw(ANGLES),
                 pol=draw(gen.signal_recipe(kinds=("noise", "sines", "chirp"), scale_exp=(exp, exp))),
                 x_pre=draw(st.one_of(ANGLES, st.sampled_from([0.0, 0.0, 360.0]))), spec=spec, azimuths=azs, p1=p1, p2=p2,
                 inv_method=draw(gen.choice(INVARIANT)), inv_angle=draw(ANGLES), inherited_meta=draw(gen.chance(4)))
